@@ -34,6 +34,14 @@ func (dv *Router) VerifStop() {
 	dv.nfdc.Stop()
 }
 
+// VerifQuiesce makes the prefix fetch loops end whatever the RIB still holds
+// (simulator teardown only).
+func (dv *Router) VerifQuiesce() {
+	dv.mutex.Lock()
+	defer dv.mutex.Unlock()
+	dv.pfx.VerifForgetLatest()
+}
+
 // VerifHeartbeat is one firing of the heartbeat ticker.
 func (dv *Router) VerifHeartbeat() {
 	dv.advertSyncSendInterest()
